@@ -262,6 +262,10 @@ fn normalise(v: &Value) -> Option<Value> {
 fn run_json(doc: &Value) -> String {
     let mut ctx = sdk_context();
     let text = serde_json::to_string(doc).unwrap();
+    // variables a script may well hold while it converts documents (a value is not a name)
+    for (k, v) in [("name", "goose"), ("document", "\"document\""), ("list.length", "1"), ("list[0]", "x")] {
+        ctx.variables.insert(k.to_string(), v.to_string());
+    }
     if std::env::var("C17_DEBUG").is_ok() {
         // probe for the hypothesis of C17_json_roundtrip: a live handle whose name occurs as a string leaf
         handles(&mut ctx).insert("handle:c17alias".to_string(), StateValue::List(vec![StateValue::String("inner".to_string())]));
@@ -764,7 +768,14 @@ const TEXT_CHARS: [char; 40] = [
     '\u{80}', 'é', 'ÿ', '\u{7ff}', '\u{800}', '€', '\u{d7ff}', '\u{e000}', '\u{ffff}', '\u{10000}', '😀', '\u{10ffff}', 'ß', '中', '\u{1b}', '~',
 ];
 fn gen_text(rng: &mut Rng, max: usize) -> String {
-    (0..rng.below(max + 1)).map(|_| *rng.pick(&TEXT_CHARS)).collect()
+    let mut t: String = (0..rng.below(max + 1)).map(|_| *rng.pick(&TEXT_CHARS)).collect();
+    if rng.chance(1, 10) {
+        let frag = rng.pick_s(&["\\x64", "\\x86", "\\xff", "\\u0041", "%41", "\\101", "\\n", "&#65;"]);
+        let at = rng.below(t.chars().count() + 1);
+        let i = t.char_indices().nth(at).map(|(i, _)| i).unwrap_or(t.len());
+        t.insert_str(i, frag);
+    }
+    t
 }
 const KEY_CHARS: [char; 24] = ['a', 'b', 'k', '1', '.', ' ', '[', ']', '0', '-', '_', ':', '=', '"', '\\', '/', 'é', '中', '😀', '$', '{', '}', '\n', '\0'];
 fn gen_key(rng: &mut Rng) -> String {
@@ -1057,6 +1068,11 @@ impl Prop for C17Prop {
         for t in ["a\0b é", "${x}", "%{x}", "\\${x}", "fo", "foo", "foob", "fooba", "foobar", "\"quoted\"", " lead", "trail ", "a=b # c"] {
             out.push(text_case(t, "text-fixed"));
         }
+        // texts that look like ESCAPE sequences of other languages (a text is bytes, nothing in it
+        // is interpreted): hex / unicode / octal escapes, percent-encoding, entities, base64-ish
+        for t in ["C:\\tools\\x64\\bin", "C:\\tools\\x86\\bin", "\\x41", "\\x4", "\\xZZ", "\\x", "a\\x00b", "\\u0041", "\\u{41}", "\\101", "\\n\\t\\r\\0", "%41%42", "%zz", "&amp;&#65;", "=?utf-8?q?x?=", "0x41", "\\\\x41", "\\X41"] {
+            out.push(text_case(t, "text-escape-lookalike"));
+        }
         // lengths around powers of two and multiples of three (block boundaries of encoders)
         for n in [62usize, 63, 64, 65, 127, 128, 129, 191, 192, 193, 254, 255, 256, 257, 258, 259, 511, 512, 513, 514, 767, 768, 769, 1023, 1024, 1025, 4095, 4096, 4097] {
             out.push(text_case(&"a".repeat(n), "text-fixed-long"));
@@ -1103,6 +1119,9 @@ impl Prop for C17Prop {
             "{\"k\":\"${x}\",\"%{y}\":\"\\\\\"}", "[\"\\u0000\",\"\\n\",\"é😀\"]",
             // scalars that look like the commands' own options
             "\"--collection\"", "\"--prefix\"", "\"-r\"", "[\"--collection\"]", "{\"--collection\":\"--collection\"}", "\"handle:\"",
+            // scalar documents whose text is the NAME of a variable that exists while the commands
+            // run (the harness's own argument variables, `name`, `document`, `list` + `list.length`)
+            "\"name\"", "\"document\"", "\"list\"", "\"c17arg0\"", "\"c17arg1\"", "[\"name\"]", "{\"name\":\"name\"}",
         ] {
             let v: Value = serde_json::from_str(t).unwrap();
             out.push(json_case(&v));
